@@ -11,7 +11,7 @@ def out(fn, *a):
         return ("ok", fn(*a))
     except TypeError as e:
         s = str(e)
-        return ("cfg", "AMBIGUOUS") if s.startswith("Ambiguous") else ("nomethod",) if s.startswith("No method") else ("cfg", s[:50])
+        return ("cfg", "AMBIGUOUS") if __import__("_errs").amb(s) else ("nomethod",) if __import__("_errs").nomethod(s) else ("cfg", s[:50])
     except (UsageError, OSError) as e:
         return ("cfg", type(e).__name__)
     except Exception as e:
@@ -293,7 +293,7 @@ def main():
                 except _UE:
                     res.append("<configuration error>")
                 except TypeError as e:
-                    res.append("nomethod" if str(e).startswith("No method") else f"TypeError: {str(e)[:40]}")
+                    res.append("nomethod" if __import__("_errs").nomethod(str(e)) else f"TypeError: {str(e)[:40]}")
                 except Exception as e:
                     res.append(f"{type(e).__name__}: {str(e)[:40]}")
             return res
